@@ -6,7 +6,7 @@ BASE = sys.argv[4] if len(sys.argv) > 4 else '/tmp/seedout'
 PFX = sys.argv[5] if len(sys.argv) > 5 else ''
 src = '%s/%s/%s' % (BASE, ID, X)
 wt = '/tmp/sv_%s%s%s' % (PFX, ID, X)
-res = {'id': '%s%s_%s' % (PFX, ID, X), 'property': ID, 'checks': {}}
+res = {'id': '%s%s_%s' % (PFX, ID, X), 'property': os.environ.get('SEED_PROP', ID), 'checks': {}}
 def sh(cmd, cwd=None, timeout=3600, env=None):
     e = dict(os.environ); e['CARGO_NET_OFFLINE'] = 'true'
     if env: e.update(env)
@@ -33,7 +33,7 @@ def set_path(p):
         for f in files:
             if f == 'Cargo.toml':
                 t = open(os.path.join(root, f)).read()
-                t = re.sub(r'/tmp/seed[23]?_%s/nutype|/tmp/sv_(r[23])?%s%s/nutype|/repo/nutype' % (ID, ID, X), p + '/nutype', t)
+                t = re.sub(r'/tmp/seed[0-9]*_[A-Za-z0-9]+/nutype|/tmp/sv_\w+/nutype|/repo/nutype', p + '/nutype', t)
                 open(os.path.join(root, f), 'w').write(t)
     lock = os.path.join(demo, 'Cargo.lock')
     if os.path.exists(lock): os.remove(lock)
